@@ -72,7 +72,7 @@ def one(bid, jobs):
         meta = {}
         if os.path.exists(os.path.join(d, "meta.json")):
             meta = json.load(open(os.path.join(d, "meta.json")))
-        for p in props_for(files, meta.get("functions", [])):
+        for p in (meta.get("checks") or props_for(files, meta.get("functions", []))):
             t = time.time()
             rc, out = sh(f"./check {p} --tier quick", cwd=VERIF, env=env)
             lines = [l for l in out.splitlines() if l.startswith(("VIOLATION", "HARNESS-ERROR", "counterexample:"))]
